@@ -11,15 +11,15 @@ META = {
          "Trusted: rustc front end, factdump, the 30-line oracle. Declaration sets outside the witness families are covered only by the structural rules on the runtime.",
          "translation validation of macro expansion + HIR structural rules"),
  "C02": ("other", "§3 C02",
-         "Path-summary rules on Interface::run (path variable is root at entry and after every terminator path, parent header after ';', unchanged for common commands) and on compound_command_program_header (returned header = parent of returned node, start node root iff leading colon); sequential execution by await-in-place. The parsed call's terminated flag and header are tied to what parse consumed, `no call` only for an empty message (C02-F); the buffer discipline of process (one whole message per call of run) is evaluated here as well (C02-K).",
+         "Path-summary rules on Interface::run (path variable is root at entry and after every terminator path, parent header after ';', unchanged for common commands) and on compound_command_program_header (returned header = parent of returned node, start node root iff leading colon); sequential execution by await-in-place. The parsed call's terminated flag and header are tied to what parse consumed, `no call` only for an empty message (C02-F); the buffer discipline of process (one whole message per call of run) is evaluated here as well (C02-K). A unit's response is completed inside execute before the loop goes on (C02-C04X).",
          "Trusted: pathsum. Decides the structural conditions on every path of the two functions, not the behaviour of concrete message sequences.",
          "path-summary dataflow over type-checked HIR"),
  "C03": ("other", "§3 C03",
-         "Sibling agreement of the conversion impls in value.rs (radix table, Self type, error kinds, no cast), generated-arm argument discipline (arity guard, args.get(j) in order, conversions before the call), recogniser/variant/radix table agreement, argument vector overflow discipline. The meaning of the parser combinators (satisfy, take_while, optional, tag) that the skeleton rules build on is read from their own bodies on every run (contract rule PR). Incomplete discipline of the data recognisers (rule C12-I) is evaluated here as well. The buffer discipline of process is evaluated here as well (C03-K).",
+         "Sibling agreement of the conversion impls in value.rs (radix table, Self type, error kinds, no cast), generated-arm argument discipline (arity guard, args.get(j) in order, conversions before the call), recogniser/variant/radix table agreement, argument vector overflow discipline. The meaning of the parser combinators (satisfy, take_while, optional, tag) that the skeleton rules build on is read from their own bodies on every run (contract rule PR). Incomplete discipline of the data recognisers (rule C12-I) is evaluated here as well. The buffer discipline of process is evaluated here as well (C03-K). Exactly one error per faulty unit: the report/skip discipline of run's error paths (C03-C06R).",
          "Numeric exactness of core::num / core::str::parse is trusted.",
          "HIR structural rules + sibling cross-check + byte-class denotation"),
  "C04": ("other", "§3 C04",
-         "Format tables of every Response impl (decoded format templates, sentinel decision table, separators), string quoting, newline+flush discipline in execute, writer who-may-call and sibling agreement. The buffer discipline of process (a unit is handed to run once) is evaluated here as well (C04-K).",
+         "Format tables of every Response impl (decoded format templates, sentinel decision table, separators), string quoting, newline+flush discipline in execute, writer who-may-call and sibling agreement. The buffer discipline of process (a unit is handed to run once) is evaluated here as well (C04-K). Write impls: write_fmt passes the pieces on without an intermediate of bounded capacity.",
          "core::fmt Display output is trusted to decode to the same value.",
          "HIR structural rules + format-template decoding"),
  "C05": ("other", "§3 C05",
@@ -27,7 +27,7 @@ META = {
          "Panics inside core/heapless beyond documented preconditions and user code are out of scope.",
          "MIR panic-edge universe + guard discharge + progress rules"),
  "C06": ("other", "§3 C06",
-         "Path-summary rules on Interface::run: one handle_error per faulty path with the verbatim error, faulty bytes skipped, state inventory across back-edges. The conversion and argument-vector rules of C03 (no wrapping/truncating conversion, no dropped push) are evaluated here as well. Undefined headers are faults: trie language and dispatcher arms of the witness interfaces (C06-T/D).",
+         "Path-summary rules on Interface::run: one handle_error per faulty path with the verbatim error, faulty bytes skipped, state inventory across back-edges. The conversion and argument-vector rules of C03 (no wrapping/truncating conversion, no dropped push) are evaluated here as well. Undefined headers are faults: trie language and dispatcher arms of the witness interfaces (C06-T/D). Only string and block recognisers can consume the terminator byte, so a complete message is never answered Incomplete (C06-N).",
          "Decides structural conditions per path; the history-level equality follows by the argument in DESIGN.md.",
          "path-summary rules over HIR"),
  "C07": ("other", "§3 C07",
@@ -35,15 +35,15 @@ META = {
          "Decides the buffer discipline, not equality of behaviour across chunkings as such.",
          "path summaries + linear normal forms"),
  "C08": ("other", "§3 C08",
-         "Byte-class denotation of string payload classes (all bytes but the delimiter), block taken by length only, Incomplete never masked on the way from a newline-transparent parser to run. The meaning of the parser combinators (satisfy, take_while, optional, tag) that the skeleton rules build on is read from their own bodies on every run (contract rule PR). Resumption of a message by process: run's Incomplete answer on every parse-error path; loss of the header path across a resumption is the recorded finding F9 (C08-R).",
+         "Byte-class denotation of string payload classes (all bytes but the delimiter), block taken by length only, Incomplete never masked on the way from a newline-transparent parser to run. The meaning of the parser combinators (satisfy, take_while, optional, tag) that the skeleton rules build on is read from their own bodies on every run (contract rule PR). Resumption of a message by process: run's Incomplete answer on every parse-error path; loss of the header path across a resumption is the recorded finding F9 (C08-R). Any further unit-to-unit local of run would be lost at a resumption too (run:resume-keeps-state).",
          "Trusted: bytecls evaluator, pathsum.",
          "byte-class denotation + error-kind flow over HIR"),
  "C09": ("proof", "§3 C09",
-         "The queue implementation is matched against the abstract bounded FIFO with replace-newest overflow: callee sets and store discipline of push/pop/count, blanket handler pushes once, NEXT?/COUNt? handlers, error number/text table against SCPI-1999. On the witness interfaces every spelling of the error queries reaches exactly the queue-reading functions through trie and dispatcher (C09-D). The buffer discipline of process - one response buffer per message - is evaluated here as well (C09-K).",
+         "The queue implementation is matched against the abstract bounded FIFO with replace-newest overflow: callee sets and store discipline of push/pop/count, blanket handler pushes once, NEXT?/COUNt? handlers, error number/text table against SCPI-1999. On the witness interfaces every spelling of the error queries reaches exactly the queue-reading functions through trie and dispatcher (C09-D). The buffer discipline of process - one response buffer per message - is evaluated here as well (C09-K). The run-time child lookup is an order-independent equality scan (C09-C01M).",
          "heapless::Deque is trusted to be a bounded deque.",
          "HIR/MIR callee-set and who-may-call rules + table comparison"),
  "C10": ("proof", "§3 C10",
-         "All clauses are structural and are decided for every stream and fault position on the single generic body of process: transport calls `.await?` unchanged, only error exits, response typestate (write+flush+clear before read). execute's output discipline (rule C04-X: terminator only after a successful query) is evaluated here as well. The slot rule of C01 (nothing executed, nothing written for a header in the wrong form) as C10-C01X; the buffer discipline as C10-K.",
+         "All clauses are structural and are decided for every stream and fault position on the single generic body of process: transport calls `.await?` unchanged, only error exits, response typestate (write+flush+clear before read). execute's output discipline (rule C04-X: terminator only after a successful query) is evaluated here as well. The slot rule of C01 (nothing executed, nothing written for a header in the wrong form) as C10-C01X; the buffer discipline as C10-K. Command forms declared by the library are bound to handlers without a response value (C10-B).",
          "Trusted: rustc HIR/typeck, factdump, pathsum.",
          "path-summary typestate over type-checked HIR"),
  "C11": ("other", "§3 C11",
@@ -55,11 +55,11 @@ META = {
          "Derives the for-all-continuations statement from structural facts.",
          "who-may-construct + byte-class + skeleton rules"),
  "C13": ("proof", "§3 C13",
-         "Obligations over the crate graph of the default-feature build: no_std in force, neither alloc nor std loaded, no extern crate alloc/std; under feature std allocation confined to std-only items.",
+         "Obligations over the crate graph of the default-feature build: no_std in force, neither alloc nor std loaded, no extern crate alloc/std; under feature std allocation confined to std-only items. The identifiers emitted by the macro's quote! fragments name no alloc/std item (C13-Q); a #![no_std] crate with the witness interfaces builds without alloc/std (C13-W).",
          "Trusted: rustc crate loading; heapless without allocating features.",
          "crate-graph and MIR call-graph obligations from compiler facts"),
  "C14": ("other", "§3 C14",
-         "Compile-fail witnesses (colliding pairs must fail inside the macro with the matching kind, collision-free twins must build) and structural rules on Tree::insert_at / insert / interface. No declaration shadowed through colliding dispatcher keys: rules C01-T/D on the witness interfaces (C14-T/D).",
+         "Compile-fail witnesses (colliding pairs must fail inside the macro with the matching kind, collision-free twins must build) and structural rules on Tree::insert_at / insert / interface. No declaration shadowed through colliding dispatcher keys: rules C01-T/D on the witness interfaces (C14-T/D). The run-time lookup uses the relation the collision test uses (C14-C01M).",
          "Collisions outside the generated families are covered by the structural rules only.",
          "compile-fail witnesses + HIR rules on the macro crate"),
 }
